@@ -232,6 +232,9 @@ def c01(ctx):
     mc_vm(ctx, "refine", cap_texts(sample, hi_cap=3 if quick else 4))
     # (2) the binding: every (program, text) of the scope through the real code
     ctx.replay("C01-exhaustive", cases, FIELDS["C01"])
+    # whole file / line / word: transcribed from the engine (the documents are silent about starts inside a unit); the
+    # expectation is firm, and compared, only on texts where a file, line or word really starts at the attempt
+    ctx.replay("C01-whole-units", ctx.gen_cases("C03W"), FIELDS["C01"])
     # (2b) seeded random programs beyond the structured scope (any nesting up to 9 nodes)
     rc = random_cases(ctx.seed, 400 if quick else 4000, with_caps=False)
     rexps, _, rc = vm_oracle(ctx, "random", rc, max_steps=20000, invariants=("MatchWF", "NoStuck", "StepBound"), drop_expensive=True)
@@ -296,6 +299,9 @@ def c03(ctx):
     ctx.replay("C03-named-loops", ctx.gen_cases("C03N"), ["spans", "num", "loc", "val", "wf", "panic"])
     # whole file / line / word (firm where a file, line or word really starts)
     ctx.replay("C03-whole-classes", ctx.gen_cases("C03W"), FIELDS["C03"])
+    # amount clauses: the window keeps the numbers of the whole sequence (consecutive, in order), find and replace
+    am = ctx.gen_cases("C04")
+    ctx.replay("C03-amounts", [c for c in am if c["id"] >= 300000 or c["id"] % (7 if ctx.tier == "quick" else 2) == 0], FIELDS["C03"])
     # regex literals: the conventional semantics of spec/Regex.tla, full records
     d = ctx.scratch.sub("rxgen")
     out, st0 = vlib.run_tlc(d, "RegexScope", "CONSTANT OutFile = \"cases.ndjson\"\nCONSTANT Tier = \"quick\"\n", workers=1, timeout=300, heap="2g")
@@ -603,6 +609,20 @@ def c06(ctx):
     names_machine(ctx, "C06")
 
 
+def run_tlaps(ctx, module, what, timeout=900):
+    import shutil
+    d = ctx.scratch.sub("tlaps_" + module)
+    shutil.copy(os.path.join(vlib.SPEC, module + ".tla"), d)
+    try:
+        p = subprocess.run(["tlapm", "--threads", "8", module + ".tla"], cwd=d, capture_output=True, text=True, timeout=timeout)
+    except subprocess.TimeoutExpired:
+        raise Undecided("tlapm timed out on " + module)
+    m = re.search(r"All (\d+) obligations proved", p.stdout + p.stderr)
+    ctx.mc_jobs.append({"job": "TLAPS:" + module, "ok": bool(m), "obligations_proved": int(m.group(1)) if m else 0, "what": what})
+    if not m:
+        raise Undecided("tlapm did not prove %s:\n%s" % (module, (p.stdout + p.stderr)[-1500:]))
+
+
 def names_machine(ctx, prop):
     """RunFiles with processFilenames (spec/NamesFS.tla): model-checked, every behaviour replayed."""
     cases = ctx.gen_cases("C06N")
@@ -623,6 +643,9 @@ def names_machine(ctx, prop):
         raise Undecided("sensitivity run of NamesFS.tla with StaleArgs did not violate NeverCrashes:\n" + vlib.tlc_error_excerpt(out, 20))
     ctx.sensitivity.append({"switch": ["StaleArgs"], "expected_violation": "NeverCrashes", "tlc_reported": "NeverCrashes", "ok": True,
                             "module": "NamesFS"})
+    if ctx.tier != "quick":
+        # the same design for every tree, argument list and rename sequence, by proof
+        run_tlaps(ctx, "NamesProof", "Spec => [](every argument that is not a directory names an existing file), for every tree and every sequence of renames")
     d = ctx.scratch.sub("rp_names")
     cp, ep, rp = [os.path.join(d, x) for x in ("cases.ndjson", "expect.ndjson", "report.json")]
     with open(cp, "w") as f:
@@ -704,6 +727,57 @@ def check_spellings(ctx, cases, exps):
     return len(groups)
 
 
+def redefinition_cases():
+    L = lambda b: {"k": "lit", "s": list(b), "ci": False, "neg": False}
+    loop = lambda mn, mx, body: {"k": "loop", "min": mn, "max": mx, "few": False, "name": "", "body": body}
+    ref = lambda name: {"k": "ref", "name": name}
+    find = lambda body, **kw: dict({"kind": "find", "amt": {"k": "all"}, "body": body}, **kw)
+    D = lambda name, es, pred=(): {"name": name, "es": es, "pred": list(pred)}
+    bodies = [[L(b"a")], [L(b"b")], [L(b"a"), loop(0, 1, L(b"b"))], [{"k": "or", "l": L(b"a"), "r": L(b"b")}], [loop(1, -1, L(b"b"))]]
+    uses = [[ref("s")], [ref("s"), ref("s")], [loop(1, -1, ref("s"))], [L(b"b"), ref("s")]]
+    cases = []
+    for i, b1 in enumerate(bodies):
+        for j, b2 in enumerate(bodies):
+            if i == j:
+                continue
+            for u in uses:
+                # set s = b1; use; set s = b2; use; use again
+                cases.append({"id": len(cases) + 1, "defs": [D("s", b1)],
+                              "cmds": [find(u), find(u, defs_before=[D("s", b2)]), find([ref("s")])],
+                              "sigma": [97, 98], "lo": 1, "hi": 4})
+            # an unrelated definition in between, and a third definition
+            cases.append({"id": len(cases) + 1, "defs": [D("s", b1)],
+                          "cmds": [find([ref("s")]), find([ref("t"), ref("s")], defs_before=[D("t", b2)]),
+                                   find([ref("s"), ref("t")], defs_before=[D("s", b2), D("t", b1)])],
+                          "sigma": [97, 98], "lo": 1, "hi": 4})
+    return cases
+
+
+def setmatches_cases():
+    L = lambda b: {"k": "lit", "s": list(b), "ci": False, "neg": False}
+    anyc = {"k": "cls", "c": "any", "neg": False}
+    cap = lambda name, body: {"k": "cap", "name": name, "body": body}
+    loop = lambda mn, mx, body: {"k": "loop", "min": mn, "max": mx, "few": False, "name": "", "body": body}
+    ref = lambda name: {"k": "ref", "name": name}
+    find = lambda body, amt=None: {"kind": "find", "amt": amt or {"k": "all"}, "body": body}
+    repl = lambda body, w: {"kind": "replace", "amt": {"k": "all"}, "body": body, "with": w}
+    inner = [find([cap("v", L(b"a"))]), repl([L(b"b")], [{"k": "str", "s": [120]}]), find([ref("s")]),
+             find([loop(1, -1, {"k": "or", "l": L(b"a"), "r": L(b"b")})], {"k": "skip", "s": 1}),
+             find([cap("v", anyc), ref("v")]), repl([cap("w", L(b"a"))], [{"k": "name", "name": "w"}, {"k": "name", "name": "w"}])]
+    outer = [(find([cap("v", L(b"a")), L(b"b")]), find([ref("s"), anyc])),
+             (repl([L(b"a")], [{"k": "str", "s": [121]}]), find([loop(1, -1, L(b"b"))])),
+             (find([ref("s")]), find([cap("w", anyc), ref("w")]))]
+    defs = [{"name": "s", "es": [L(b"a"), loop(0, 1, L(b"b"))], "pred": []}]
+    cases = []
+    for i, inn in enumerate(inner):
+        for j, (x, y) in enumerate(outer):
+            for pos in range(3):
+                cmds = [x, y]
+                cmds.insert(pos, {"kind": "setmatches", "name": "m%d" % pos, "cmd": inn})
+                cases.append({"id": len(cases) + 1, "defs": defs, "cmds": cmds, "sigma": [97, 98], "lo": 1, "hi": 4})
+    return cases
+
+
 @check("C13")
 def c13(ctx):
     ctx.technique = ("Transparent: inline / subroutine / global spellings evaluated by TLC to one result and replayed; "
@@ -719,6 +793,11 @@ def c13(ctx):
     # global patterns that contain calls, predicates and other globals, referenced 1-2 times
     gl = [c for c in ctx.gen_cases("C01") if c.get("defs")]
     ctx.replay("C13-globals", gl if not quick else [c for c in gl if c["id"] % 2 == 0], FIELDS["C13"], reject_violation=True)
+    # `set x to matches <command>` between commands: compiled, inert, and without effect on its neighbours
+    sm = setmatches_cases()
+    ctx.replay("C13-set-matches", sm, FIELDS["C13"], reject_violation=True)
+    # definitions between the commands: a name redefined after a use (each command sees the definition before it)
+    ctx.replay("C13-redefinition", redefinition_cases(), FIELDS["C13"], reject_violation=True)
     # the relocation of stored global code, on the specification: every command of every program
     vmcases = []
     for c in cases:
@@ -815,6 +894,18 @@ def c09(ctx):
     bcases = [{"id": i + 1, "cmds": p, "texts": [big(n) for n in sizes]} for i, p in enumerate(progs)]
     bexps = [{"id": c["id"], "r": [{"t": t, "ms": [], "firm": False, "undef": False, "noret": False} for t in c["texts"]]} for c in bcases]
     ctx.replay("C09-big-inputs", bcases, FIELDS["C09"], mode="both", exps=bexps, want_ast=False)
+    # accepted programs outside the modelled subsets (regex \\w \\W \\b, classes with a trailing dash, odd counts): run, no oracle
+    extras = ["find all @/\\w+\\b/", "find all @/\\W/", "find all @/a\\b/", "find all @/[a-]+/", "find all @/[]-a]/", "find all @/a{2,1}/",
+              "find all between 2 and 1 'a'", "find all at most 0 'a'", "find all exactly 0 'a' 'b'", "find all @/(a|)+b/", "find all @/\\bab\\b/",
+              "find all caseless @/ab/", "find all not @/a/", "find all @/a/ = x x", "find all maybe @/(a)/ _1",
+              # the name of a loop used where a text is expected (it holds a map)
+              "find all at least 1 'a' named lp lp", "replace all at least 1 ('a' = c) named lp with lp '-' c",
+              "set t to transform return lp + match end replace all at least 1 'a' named lp with t",
+              "find all at least 1 (at least 1 'a' named inner 'b') named outer inner"]
+    etexts = [[], [97], [97, 98], [98, 97, 32, 97, 98], [97, 45, 93, 97], [32, 97, 97, 98, 10, 97], [95, 49, 97, 32]]
+    ecases = [{"id": i + 1, "src": sct, "texts": etexts} for i, sct in enumerate(extras)]
+    eexps = [{"id": c["id"], "r": [{"t": t, "ms": [], "firm": False, "undef": False, "noret": False} for t in c["texts"]]} for c in ecases]
+    ctx.replay("C09-unmodelled-accepted", ecases, FIELDS["C09"], mode="both", exps=eexps, want_ast=False)
     # RunFiles on file NAMES (renames between commands): returns normally
     names_machine(ctx, "C09")
 
@@ -825,6 +916,45 @@ RULES["C10"] = ("programs: C10_Bodies of spec/Scope.tla: loops {maybe, at least 
                 "of nullable subroutines, not in, lazy any*) x all strings over {a,space,newline} up to the tier's length; "
                 "the real engine runs under an instruction budget of 20 x the model's step count + 10^4 (the engine and the model agree on the exact step count of every run); non-trivial = "
                 "the model needs more than 20 instructions")
+
+
+def process_loop_cases():
+    N = lambda v: {"k": "num", "v": v}
+    V = lambda x: {"k": "var", "name": x}
+    S = lambda b: {"k": "str", "v": list(b)}
+    B = lambda op, l, r: {"k": "bin", "op": op, "l": l, "r": r}
+    Set = lambda x, e: {"k": "set", "name": x, "e": e}
+    Ret = lambda e: {"k": "ret", "e": e}
+    If = lambda c, th, el=(): {"k": "if", "c": c, "th": list(th), "el": list(el)}
+    Loop = lambda *b: {"k": "loop", "body": list(b)}
+    Brk, Cont = {"k": "brk"}, {"k": "cont"}
+    inc = Set("i", B("+", V("i"), N(1)))
+    bodies = [
+        [Set("i", N(0)), Loop(inc, If(B(">", V("i"), N(3)), [Brk]), Cont), Ret(V("i"))],
+        [Set("i", N(0)), Set("s", S(b"")), Loop(inc, If(B(">", V("i"), N(4)), [Brk]), If(B("==", B("%", V("i"), N(2)), N(0)), [Cont]),
+                                                Set("s", B("+", V("s"), V("i")))), Ret(V("s"))],
+        [Set("i", N(0)), Loop(If(B("<", V("i"), V("matchLength")), [inc, Cont]), Brk), Ret(V("i"))],
+        [Set("i", N(0)), Set("j", N(0)), Loop(inc, If(B(">", V("i"), N(2)), [Brk]),
+                                               Loop(Set("j", B("+", V("j"), N(1))), If(B("<", V("j"), B("*", V("i"), N(2))), [Cont]), Brk), Cont),
+         Ret(B("+", B("*", V("i"), N(10)), V("j")))],
+        [Set("i", N(0)), Loop(inc, If(B("==", V("i"), N(1)), [Cont], [If(B("==", V("i"), N(2)), [Cont], [Brk])])), Ret(V("i"))],
+        [Set("t", V("match")), Set("n", N(0)), Loop(If(B("==", V("t"), S(b"")), [Brk]), Set("t", {"k": "un", "op": "tail", "e": V("t")}),
+                                                   Set("n", B("+", V("n"), N(1))), Cont), Ret(V("n"))],
+    ]
+    anyc = {"k": "cls", "c": "any", "neg": False}
+    lp = {"k": "loop", "min": 1, "max": -1, "few": False, "name": "", "body": {"k": "lit", "s": [97], "ci": False, "neg": False}}
+    cases = []
+    for b in bodies:
+        cases.append({"id": len(cases) + 1, "defs": [], "trans": [{"name": "f", "stmts": b}], "ctx": "trans",
+                      "cmds": [{"kind": "replace", "amt": {"k": "all"}, "body": [lp], "with": [{"k": "name", "name": "f"}]}],
+                      "texts": [[97], [97, 97, 98, 97], [98], [97, 97, 97, 97, 97]]})
+    # the same loops deciding a predicate
+    for b in bodies[:3]:
+        pb = b[:-1] + [Ret(B(">", b[-1]["e"], N(1)) if b is not bodies[1] else B("==", b[-1]["e"], S(b"13")))]
+        cases.append({"id": len(cases) + 1, "defs": [{"name": "p", "es": [lp], "pred": pb}], "ctx": "pred",
+                      "cmds": [{"kind": "find", "amt": {"k": "all"}, "body": [{"k": "ref", "name": "p"}]}],
+                      "texts": [[97], [97, 97, 98, 97], [98, 97, 97, 97]]})
+    return cases
 
 
 @check("C10")
@@ -839,6 +969,8 @@ def c10(ctx):
     rep = ctx.replay("C10-budget", cases, FIELDS["C10"], exps=exps, extra=["-budget-mul", "20"], timeout=20)
     ctx.nontrivial = nontriv
     ctx.diagnostics["max_model_steps"] = max(r["steps"] for e in exps for r in e["r"])
+    # process code with bounded loops (break, continue, nested, inside if): terminates with the specification's value
+    ctx.replay("C10-process-loops", process_loop_cases(), ["hang", "crash", "panic", "spans", "repl", "budget"], timeout=20)
     # sensitivity: without the zero-width guard the model spins
     sens = [c for c in cases if c["id"] % 60 == 0]
     mc_vm(ctx, "sens-NoZeroWidthGuard", cap_texts(sens, hi_cap=2), dev=["NoZeroWidthGuard"], expect="StepBound", max_steps=500,
@@ -877,6 +1009,13 @@ def reader_plan(tier):
         # several commands on one file: every command reads the file as it is then
         runs.append({"size": s, "src": "replace all 'z9' with 'Q' find all 'z9'", "mode": "NOTHING"})
         runs.append({"size": s, "src": "replace all 'z9' with 'Q' find all 'xy' replace all 'c' with ''", "mode": "NEW"})
+    for s in ([6145] if tier == "quick" else [4500, 6145, 9000]):
+        # alternatives that each read ahead beyond the first window and fail: several far-back seeks to the start in one
+        # attempt, the last alternative then has to read the right bytes again
+        runs.append({"size": s, "src": "find all (file start 'ab' exactly 4100 any 'QQ') or (file start 'ab c' exactly 4200 any 'QQ') "
+                                       "or (file start exactly 4320 any 'ab c')", "mode": "NOTHING"})
+        runs.append({"size": s, "src": "find all (file start 'ab c' = tag exactly 4100 any 'QQ' tag) or (file start exactly 4200 any = u 'QQ') "
+                                       "or (file start at least 4400 any fewest 'z9')", "mode": "NOTHING"})
     for s in ([4097] if tier == "quick" else [1, 2, 4097, 8193]):
         # reads that ask for more bytes than are left (a negated literal near the end of the file)
         runs.append({"size": s, "src": "find all not 'qqq'", "mode": "NOTHING"})
@@ -1094,6 +1233,20 @@ def c08(ctx):
     for _ in range(500 if quick else 5000):
         soups.append({"src": [rnd.randint(0, 255) for _ in range(rnd.randint(1, 16))]})
     compile_check(ctx, "C08-seeded-soups", soups, "bare,findall")
+    # numbers that do not fit an int in every numeric position, comment and string edges at the end of the source
+    big = "99999999999999999999"
+    edge = ["find skip %s 'a'", "find skip 1 take %s 'a'", "find take %s 'a'", "find top %s 'a'", "find last %s 'a'", "find all exactly %s 'a'",
+            "find all at least %s 'a'", "find all at most %s 'a'", "find all between %s and 2 'a'", "find all between 1 and %s 'a'",
+            "set t to transform return %s end replace all 'a' with t", "set p to pattern 'a' begin return matchLength < %s end find all p",
+            "find all @/a{%s}/", "find all @/a{1,%s}/", "find all @/a{%s,}/"]
+    lines = [{"text": e % big} for e in edge] + [{"text": e % "0"} for e in edge] + [{"text": e % "007"} for e in edge]
+    lines += [{"text": t} for t in ["find all @/(?=a)b/", "find all @/a(?!b)/", "find all @/(?<=a)b/", "find all @/(?<!a)b/", "find all @/(?<n/", "find all @/(?<n>a/",
+                                    "find all @/\\w+\\b/", "find all @/\\W\\B/", "find all @/[a-/", "find all @/[a-]/", "find all @/[]-a]/", "find all @/a{2,1}/",
+                                    "find all @/(?/", "find all @/(?</", "find all @/\\k<n>/", "find all @/\\k<n/", "find all @/\\9/"]]
+    lines += [{"text": t} for t in ["find all 'a' --", "find all 'a' --(", "find all 'a' --()", "find all 'a' --()-", "find all 'a' --())", "find all 'a' --()-)",
+                                    "find all 'a' ---", "--\nfind all 'a'", "--()-)--find all 'a'", "find all 'a' -", "find all '\\", "find all \"\\",
+                                    "find all 'a' = ", "find all 'a' = x =", "find all 'a' = x 'b' = x", "find all {'a'} = s {'b'} = s", "find all at least 1 'a' named x 'b' = x", "find all between 2 and 1 'a'", "find all at most 0 'a'", "find all exactly 0 'a' 'b'"]]
+    compile_check(ctx, "C08-edge-sources", lines, "bare")
     ctx.exhaustive = False
     # sensitivity of the lexer model
     run_lex_mc(ctx, "sens-final", "lex", 2, "", dev=["AsIsFinalSwitch"], expect="LexTotal")
@@ -1141,6 +1294,17 @@ def c15(ctx):
     if not st["ok"]:
         raise Undecided("model checking of spec/Layout.tla failed:\n" + vlib.tlc_error_excerpt(out, 40))
     ctx.add_mc("Layout", st, "LayoutPreservesLex for every widen/close/recase edit of every corpus program")
+    # sensitivity: with the historical comment automaton the layout layer is NOT transparent (defects repaired in 68e4517, 2ed0496)
+    for sw in ("BlockEndLosesParen", "EmptyCommentSwallowsLine"):
+        ds = ctx.scratch.sub("layout_" + sw)
+        with open(os.path.join(ds, "corpus.ndjson"), "w") as f:
+            f.write(json.dumps({"id": 1, "src": list(b"find all 'a' = v")}) + "\n")
+        outs, sts = vlib.run_tlc(ds, "Layout", "SPECIFICATION Spec\nCONSTANT CorpusFile = \"corpus.ndjson\"\nCONSTANT LexDev = {\"%s\"}\n"
+                                 "INVARIANT LayoutPreservesLex\nCHECK_DEADLOCK FALSE\n" % sw, workers=1, timeout=300, heap="2g")
+        ok = "Invariant LayoutPreservesLex is violated" in outs
+        ctx.sensitivity.append({"switch": [sw], "expected_violation": "LayoutPreservesLex", "tlc_reported": "LayoutPreservesLex" if ok else None, "ok": ok})
+        if not ok:
+            raise Undecided("sensitivity run of Layout.tla with %s did not violate LayoutPreservesLex" % sw)
     docs = vlib.tlc_json_lines(out)
     ip, rp = os.path.join(d, "variants.ndjson"), os.path.join(d, "report.json")
     with open(ip, "w") as f:
@@ -1241,6 +1405,26 @@ def c16(ctx):
                                       "srcbytes": list(("find all " + chr(q) + body + chr(q)).encode("latin-1")),
                                       "litq": q, "litbody": list(body.encode("latin-1")),
                                       "texts": [bs, [b1], [b2], [b2, b1], [b1, b1, b2, b2], [b1, 32, b2]]})
+    # an escaped backslash followed by what would be a hex escape, and an incomplete \x followed by
+    # backslash-spelled digits: escapes are decoded left to right, once
+    base = max(c["id"] for c in cases)
+    k = 0
+    foll = [("4", [52]), ("1", [49]), ("f", [102]), ("A", [65]), ("\\4", [52]), ("\\1", [49]), ("z", [122]), ("\\\\", [92])]
+    for q in (39, 34):
+        for pre, pb in (("", []), ("a", [97])):
+            for (f1, b1) in foll:
+                for (f2, b2) in foll:
+                    bodies = [(pre + "\\\\x" + f1 + f2, pb + [92, 120] + b1 + b2)]
+                    if not (len(f1) == 1 and f1 in "41fA"):
+                        bodies.append((pre + "\\x" + f1 + f2, pb + [120] + b1 + b2))     # incomplete: x stands for itself
+                    for body, bs in bodies:
+                        k += 1
+                        cases.append({"id": base + k, "cmds": [{"kind": "find", "amt": {"k": "all"},
+                                      "body": [{"k": "lit", "s": bs, "neg": False, "ci": False}]}],
+                                      "srcbytes": list(("find all " + chr(q) + body + chr(q)).encode("latin-1")),
+                                      "litq": q, "litbody": list(body.encode("latin-1")),
+                                      "texts": [bs, bs[1:], pb + [int((f1 + f2), 16)] if len(f1 + f2) == 2 and all(c in "41fA" for c in f1 + f2) else bs + bs,
+                                                [92] + bs]})
     exps, st3 = vlib.eval_cases(ctx.scratch, cases, module="EvalLit", extra_const="CONSTANT LexDev = {}")
     ctx.states += st3["distinct"]
     ctx.transitions += st3["states"]
@@ -1548,6 +1732,14 @@ def c19(ctx):
                             "-trace", os.path.join(dd, "T.ndjson"), "-report", os.path.join(dd, "rep.json")],
                            capture_output=True, text=True, timeout=600, env=env)
         if p.returncode != 0 or not os.path.exists(os.path.join(dd, "rep.json")):
+            fatal = re.search(r"fatal error: (concurrent map[^\n]*|all goroutines are asleep[^\n]*)", p.stderr)
+            if fatal or "WARNING: DATA RACE" in p.stderr:
+                # the Go runtime itself stopped the process: unsynchronised access inside the library (not recoverable)
+                where = [l.strip() for l in p.stderr.splitlines() if "/libvore/" in l][:4]
+                ctx.violations.append({"kind": "race", "sig": "runtime-fatal", "family": "C19-goroutines",
+                                       "detail": "the Go runtime stopped the concurrent run: %s %s" % (fatal.group(0) if fatal else "DATA RACE", " | ".join(where)),
+                                       "src": "", "text": None, "case": {"seed": ctx.seed * 100 + r, "round": r}})
+                return
             raise Undecided("concurrency run failed: " + p.stderr[-2000:])
         with open(os.path.join(dd, "rep.json")) as f:
             rep = json.load(f)
